@@ -151,7 +151,7 @@ impl Property for C16 {
         "C16"
     }
     fn rule(&self) -> &'static str {
-        "proptest single cases: app (the shipped example / a minimal harness app that calls the interface's validate_message helper and aborts on error / in a quarter of the cases the token service itself, delivered a hub message that mints a deployed token) x delivery (chain, id, source address from small pools incl. empty strings and ids of 121 and 160 characters; payload 0..600 bytes) x at most one deviation (never approved; approved for another app / approved under the case's chain but delivered naming another source chain / for the account-kind address with the app's 32 bytes / another payload / source address / id / chain; delivered twice; additionally approved for the other app; approval re-submitted, or the id re-approved with other content, after delivery; approved under another split of the same characters between chain and id, for 8 separators; approval and delivery differing only in letter case or a trailing space of chain / id / source address, in either direction) x 0..150 days passing between approval and delivery and between the first delivery and whatever is tried afterwards, optionally with a signer rotation (ordinary or operator-bypass) after the first delivery, later approvals being signed by the new set, and optionally with a third party calling the gateway's validate_message for the delivered id in between (ledger sequence and clock advanced; temporary entries of that age are gone). All 2x33 app x deviation combinations are also enumerated as fixed cases. Oracle: the app's effect (its executed event / counter) and the gateway's transition to executed happen iff the gateway held a matching unexecuted approval naming this app; otherwise the delivery fails, nothing is emitted and the ledger snapshot is identical. non-trivial = a deviation is present; distinct by Debug hash"
+        "proptest single cases: app (the shipped example / a minimal harness app that calls the interface's validate_message helper and aborts on error / in a quarter of the cases the token service itself, delivered a hub message that mints a deployed token) x delivery (chain, id, source address from small pools incl. empty strings and ids of 121 and 160 characters; payload 0..600 bytes) x at most one deviation (never approved; approved for another app / approved under the case's chain but delivered naming another source chain / for the account-kind address with the app's 32 bytes / another payload / source address / id / chain; delivered twice; additionally approved for the other app; approval re-submitted, or the id re-approved with other content, after delivery; approved under another split of the same characters between chain and id, for 8 separators; approval and delivery differing only in letter case or a trailing space of chain / id / source address, in either direction) x 0..150 days passing between approval and delivery and between the first delivery and whatever is tried afterwards, optionally with a signer rotation (ordinary or operator-bypass) after the first delivery, later approvals being signed by the new set, and optionally with a third party calling the gateway's validate_message for the delivered id in between (ledger sequence and clock advanced; temporary entries of that age are gone). All 2x33 app x deviation combinations are also enumerated as fixed cases. Oracle: the app's effect (its executed event / counter) and the gateway's transition to executed happen iff the gateway held a matching unexecuted approval naming this app; otherwise the delivery fails, nothing is emitted and the ledger snapshot is identical. non-trivial = a deviation is present; distinct by Debug hash Since rounds 12-13: after delivery the message may be re-submitted inside a new signed batch beside a sibling (same id under another chain in front / behind, same chain other id, chain and id exchanged, the message twice); the mirror image of the studied message may have been delivered before; one case in ten is an entry-point sweep (construction as for C13) on a world in which the example app has been delivered a message, with the rule: after the swept call and a re-submission of that message's approval the app does not take it a second time."
     }
     fn fixed_is_exhaustive(&self) -> Option<&'static str> {
         Some("app x deviation matrix (2 x 33) enumerated completely with one fixed delivery; deliveries sampled")
